@@ -1300,6 +1300,114 @@ def _pfp(f, nid):
     return f.fp(n_['id']) if n_['k'] in ('DeclRefExpr', 'MemberExpr') or not vs else '%s#%d' % (vs[0]['name'], vs[0]['did'])
 
 
+def r04n(rep, F, rule='R04n'):
+    rep.rule(rule, 'registration round trip of ProblemDefinition, interpreted across addSolutionPath(path, approximate, difference, name), '
+                   'PlannerSolution::setApproximate, PlannerSolutionSet::add / std::sort with PlannerSolution::operator<, and the query '
+                   'functions (objects are abstract records; fresh solutions start exact, difference -1, not optimized): after one '
+                   'registration hasSolution() is true, hasApproximateSolution() is the registered flag, getSolutionDifference() is the '
+                   'registered difference for an approximate solution, hasExactSolution() is the negated flag and getSolutionPath() is the '
+                   'registered path; after an exact and an approximate registration in either order the queries answer from the exact one; '
+                   'after clearSolutionPaths() nothing is reported')
+    from engine import obj
+    from fractions import Fraction
+    PDn = 'ompl::base::ProblemDefinition::'
+
+    def construct(it, n, av):
+        ty = n.get('ty') or ''
+        if 'PlannerSolution' in ty and 'vector' not in ty and 'Set' not in ty:
+            if len(av) == 1 and isinstance(av[0], obj.Obj) and 'PlannerSolution' in (n.get('csig') or ''):
+                return obj.Obj(av[0])               # copy / move construction
+            return obj.Obj(index_=-1, path_=av[0] if av else None, approximate_=False, difference_=Fraction(-1), optimized_=False,
+                           cost_=('cost', 0), length_=(av[0] or {}).get('len', 0) if av and isinstance(av[0], dict) else 0, opt_=None, plannerName_=('str', ''))
+        return NotImplemented
+
+    def default(ty):
+        if 'PathPtr' in ty or 'shared_ptr' in ty:
+            return None
+        return None
+
+    def call(it, n, env):
+        c = n.get('callee') or ''
+        if c.endswith('::c_str') or c == 'ompl::msg::log':
+            return ('opaque',)
+        if c.endswith('basic_string::operator=') or 'basic_string' in c:
+            return ('str', '?')
+        if c.endswith('Path::length'):
+            o = it.ev(n['ch'][0], env)
+            return o.get('len', 0) if isinstance(o, dict) else 0
+        return NotImplemented
+
+    def sort(it, n, env):
+        vec = it.ev(args(it.fn, n)[0], env)
+        # begin()/end() of the same vector: find the list by identity
+        lst = None
+        for v in [it.this] + list(env.values()):
+            if isinstance(v, dict):
+                for vv in v.values():
+                    if isinstance(vv, list) and vec == ('iter', id(vv), 'begin'):
+                        lst = vv
+        if lst is None:
+            raise AnalysisBroken('%s: std::sort over an unrecognised range' % rule)
+        less = [g for g in F.by_name.get('ompl::base::PlannerSolution::operator<', []) if g.body][0]
+
+        def lt(a, b):
+            sub = obj.ObjInterp(F, less, this=a, depth=it.depth + 1, hooks=it.hooks)
+            r, _ = sub.run({'%s#%d' % (less.params[0]['name'], less.params[0]['did']): b})
+            return bool(r)
+        out = []
+        for x in lst:                       # stable insertion sort with the interpreted order
+            i = len(out)
+            while i > 0 and lt(x, out[i - 1]):
+                i -= 1
+            out.insert(i, x)
+        lst[:] = out
+        return None
+    hooks = {'construct': construct, 'default': default, 'call': call, 'sort': sort}
+
+    def q(pd, name, *av):
+        fs = [g for g in F.by_name.get(PDn + name, []) if g.body and len(g.params) == len(av)]
+        if not fs:
+            raise AnalysisBroken('%s: ProblemDefinition::%s vanished' % (rule, name))
+        it = obj.ObjInterp(F, fs[0], this=pd, hooks=hooks)
+        r, _ = it.run({'%s#%d' % (p_['name'], p_['did']): v for p_, v in zip(fs[0].params, av)})
+        return r
+
+    def fresh():
+        return obj.Obj(solutions_=obj.Ref(solutions_=[], lock_=('mutex',)))
+    n = 0
+    bad = None
+    for approx in (False, True):
+        pd = fresh()
+        path = obj.Ref(len=5)
+        q(pd, 'addSolutionPath', path, approx, Fraction(3, 2), ('str', 'p'))
+        got = {'hasSolution': q(pd, 'hasSolution'), 'hasApproximateSolution': q(pd, 'hasApproximateSolution'),
+               'hasExactSolution': q(pd, 'hasExactSolution'), 'getSolutionPath': q(pd, 'getSolutionPath'), 'getSolutionCount': q(pd, 'getSolutionCount')}
+        want = {'hasSolution': True, 'hasApproximateSolution': approx, 'hasExactSolution': not approx, 'getSolutionPath': path, 'getSolutionCount': 1}
+        if approx:
+            got['getSolutionDifference'] = q(pd, 'getSolutionDifference')
+            want['getSolutionDifference'] = Fraction(3, 2)
+        for k_ in want:
+            if not (got[k_] is want[k_] or got[k_] == want[k_]) and bad is None:
+                bad = 'after addSolutionPath(path, approximate=%s, difference=3/2) %s() answers %s' % (approx, k_, 'another path' if k_ == 'getSolutionPath' else got[k_])
+    n += 1
+    rep.add(rule, PDn + 'addSolutionPath', 'single-registration-round-trip', bad is None, '', bad or 'the queries answer what was registered (exact and approximate)')
+    bad = None
+    for order in ((False, True), (True, False)):
+        pd = fresh()
+        paths_ = {}
+        for approx in order:
+            paths_[approx] = obj.Ref(len=7 if not approx else 2)          # the approximate path is the shorter one: it must still rank second
+            q(pd, 'addSolutionPath', paths_[approx], approx, Fraction(1, 2), ('str', 'p'))
+        if q(pd, 'hasApproximateSolution') is not False or q(pd, 'getSolutionPath') is not paths_[False] or q(pd, 'hasExactSolution') is not True:
+            bad = bad or 'after registering %s the top solution is not the exact one' % (' then '.join('approximate' if a else 'exact' for a in order))
+        q(pd, 'clearSolutionPaths')
+        if q(pd, 'hasSolution') is not False or q(pd, 'getSolutionPath') is not None or q(pd, 'hasApproximateSolution') is not False:
+            bad = bad or 'after clearSolutionPaths() a solution is still reported'
+    n += 1
+    rep.add(rule, PDn + 'addSolutionPath', 'exact-before-approximate-and-clear', bad is None, '', bad or 'exact ranks first in both orders; clear forgets')
+    rep.require_count(rule, 'registration round trips', n, 2)
+
+
 def r04k(rep, F):
     rep.rule('R04k', 'cost recurrences stay within one cost field: where a tree-node record has several cost-like fields (cost / incCost, '
                      'costApx_ / costLb_, ...) a store X->F = E whose value reads, directly or through locals of the function, the cost '
@@ -1371,3 +1479,4 @@ def run(rep):
     r04k(rep, F)
     r04l(rep, F)
     r04m(rep, F)
+    r04n(rep, F)
